@@ -107,7 +107,9 @@ func (gs *GraphicsState) Restore() error {
 
 // Transform applies a transformation matrix to CTM (cm operator)
 func (gs *GraphicsState) Transform(m model.Matrix) {
-	gs.CTM = gs.CTM.Multiply(m)
+	// cm pre-multiplies: CTM' = M x CTM (ISO 32000-1 8.3.4), i.e. a point is mapped
+	// through the new matrix first and then through the previous CTM.
+	gs.CTM = m.Multiply(gs.CTM)
 }
 
 // SetLineWidth sets the line width (w operator)
@@ -180,9 +182,10 @@ func (gs *GraphicsState) SetTextMatrix(m model.Matrix) {
 
 // TranslateText translates the text matrix (Td operator)
 func (gs *GraphicsState) TranslateText(tx, ty float64) {
-	// Td is equivalent to: Tm = Tlm * T(tx, ty)
+	// Td: Tlm' = T(tx, ty) x Tlm (ISO 32000-1 9.4.2): the offset is expressed in the
+	// (possibly scaled or rotated) text space of the current line.
 	translation := model.Translate(tx, ty)
-	gs.Text.TextLineMatrix = gs.Text.TextLineMatrix.Multiply(translation)
+	gs.Text.TextLineMatrix = translation.Multiply(gs.Text.TextLineMatrix)
 	gs.Text.TextMatrix = gs.Text.TextLineMatrix
 }
 
